@@ -79,8 +79,11 @@ def strip_path(name):
 def discharge_contracts(rep: Report, contracts, timeout_ms, jobs=None):
     """run the engine on each contract, discharge all obligations; fills rep; returns list of failed obligation records"""
     all_obs = []
-    owners = []
     results = []
+    if not rep.extra.get("euclid_lemma_proved"):
+        if not D.selfcheck_lemmas():
+            rep.errors.append("Euclid uniqueness lemma could not be re-proved")
+        rep.extra["euclid_lemma_proved"] = True
     for c in contracts:
         reset_names()
         t = time.time()
